@@ -46,7 +46,11 @@ let () = iter_lines (fun line ->
   and pcode c = ps "["; List.iter pnode c; ps "]"
   and pocode = function None -> ps "~" | Some c -> pcode c in
   (match build toks with
-   | Ok c -> ps "ok "; pcode c; ps " | "; pstr (str_code c)
+   | Ok c -> ps "ok "; pcode c; ps " | "; pstr (str_code c);
+       let fl = fl_code c in
+       ps (Printf.sprintf " | img=%d rb=%d wf=%d"
+             (if List.map erase fl = List.map erase toks then 1 else 0)
+             (if build fl = Ok c then 1 else 0) (if wf_codeb c then 1 else 0))
    | Exn ParserError -> ps "exc ParserError"
    | Exn _ -> ps "exc other"
    | Resource -> ps "resource");
